@@ -32,3 +32,72 @@ package cabf_br
 //@   ensures result != nil && fresh(result) && (result.Status == lint.Error || result.Status == lint.Pass)
 //@   ensures (result.Status == lint.Error) ==
 //@           exists(j, 0, len(c.PermittedIPAddresses), util.IntersectsIANAReserved(c.PermittedIPAddresses[j].Data))
+
+// ---------------------------------------------------------------------------
+// RSA key quality (C16): each lint decides exactly its arithmetic predicate
+
+//@ func (*rsaParsedTestsKeySize).Execute [C16]
+//@   requires c != nil && util.hasRSAKey(c)
+//@   nopanic
+//@   assigns \fresh
+//@   ensures result != nil && fresh(result) && (result.Status == lint.Error || result.Status == lint.Pass)
+//@   ensures (result.Status == lint.Error) == (bitlen(util.modulus(c)) < 2048)
+
+//@ func (*rootCaModSize).Execute [C16]
+//@   requires c != nil && util.hasRSAKey(c)
+//@   nopanic
+//@   assigns \fresh
+//@   ensures result != nil && fresh(result) && (result.Status == lint.Error || result.Status == lint.Pass)
+//@   ensures (result.Status == lint.Error) == (bitlen(util.modulus(c)) < 2048)
+
+//@ func (*subCaModSize).Execute [C16]
+//@   requires c != nil && util.hasRSAKey(c)
+//@   nopanic
+//@   assigns \fresh
+//@   ensures result != nil && fresh(result) && (result.Status == lint.Error || result.Status == lint.Pass)
+//@   ensures (result.Status == lint.Error) == (bitlen(util.modulus(c)) < 1024)
+
+//@ func (*subModSize).Execute [C16]
+//@   requires c != nil && util.hasRSAKey(c)
+//@   nopanic
+//@   assigns \fresh
+//@   ensures result != nil && fresh(result) && (result.Status == lint.Error || result.Status == lint.Pass)
+//@   ensures (result.Status == lint.Error) == (bitlen(util.modulus(c)) < 1024)
+
+//@ func (*rsaParsedTestsKeyModOdd).Execute [C16]
+//@   requires c != nil && util.hasRSAKey(c)
+//@   nopanic
+//@   assigns \fresh
+//@   ensures result != nil && fresh(result) && (result.Status == lint.Warn || result.Status == lint.Pass)
+//@   ensures (result.Status == lint.Warn) == (util.modulus(c) % 2 == 0)
+
+//@ func (*rsaModSmallFactor).Execute [C16]
+//@   requires c != nil && util.hasRSAKey(c) && util.primesWF()
+//@   nopanic
+//@   assigns \fresh
+//@   ensures result != nil && fresh(result) && (result.Status == lint.Warn || result.Status == lint.Pass)
+//@   ensures (result.Status == lint.Warn) ==
+//@           exists(j, 0, tableLen("util.bigIntPrimes"), emod(util.modulus(c), tableInt("util.bigIntPrimes", j)) == 0)
+
+//@ func (*rsaParsedTestsKeyExpOdd).Execute [C16]
+//@   requires c != nil && util.hasRSAKey(c) && util.exponent(c) > 0
+//@   nopanic
+//@   assigns \fresh
+//@   ensures result != nil && fresh(result) && (result.Status == lint.Error || result.Status == lint.Pass)
+//@   ensures (result.Status == lint.Error) == (util.exponent(c) % 2 == 0)
+
+//@ func (*rsaParsedTestsExpBounds).Execute [C16]
+//@   requires c != nil && util.hasRSAKey(c)
+//@   nopanic
+//@   assigns \fresh
+//@   ensures result != nil && fresh(result) && (result.Status == lint.Error || result.Status == lint.Pass)
+//@   ensures (result.Status == lint.Error) == (util.exponent(c) < 3)
+
+//@ func (*rsaParsedTestsExpInRange).Execute [C16]
+//@   requires c != nil && util.hasRSAKey(c) && l != nil && l.upperBound != nil
+//@   requires val(l.upperBound) == 115792089237316195423570985008687907853269984665640564039457584007913129639936
+//@   nopanic
+//@   assigns \fresh
+//@   ensures result != nil && fresh(result) && (result.Status == lint.Warn || result.Status == lint.Pass)
+//@   ensures (result.Status == lint.Warn) ==
+//@           !(65537 <= util.exponent(c) && util.exponent(c) < 115792089237316195423570985008687907853269984665640564039457584007913129639936)
